@@ -6,7 +6,7 @@ Two halves, both executable:
 * the PYTHON side as it is now: `renderConst` mirrors `query_ast_visitor.visit_Constant`
   (common/ast_to_cpp_translator.py): `str` → `as_cpp_string_literal` (per-character table
   `Gen.escapeTable`, regenerated from the source on every run), `int` → `str(n)` typed `int`,
-  `float` → `str(x)` (= CPython's `repr`, given here by its *text*: sign, digits, optional
+  `float` → `str(x)` (both in parentheses when negative; `str(x)` = CPython's `repr`, given here by its *text*: sign, digits, optional
   fraction, optional exponent; `inf`/`nan` are refused), `bool` → `true`/`false`, anything else
   refused; plus the lines in which names land (`renderSegs`: the booking / fill lines of the three
   backends, `Gen.bookLines`, where tree and branch names are copied between quotes verbatim).
@@ -133,11 +133,15 @@ def renderBody (tbl : List (Char × Str)) : Str → Str
 /-- `as_cpp_string_literal(s)` = `'"' + "".join(table.get(c, c) for c in s) + '"'` -/
 def renderStrL (tbl : List (Char × Str)) (s : Str) : Str := '"' :: (renderBody tbl s ++ ['"'])
 
+/-- `_signed_literal` (since 212716c): a text that starts with `-` is put in parentheses, so that a
+negative constant directly after a binary minus is not lexed as a decrement (`a--5`). -/
+def signedLit (t : Str) : Str := if t.head? = some '-' then '(' :: (t ++ [')']) else t
+
 /-- `visit_Constant`: text of the C++ expression and the type recorded for it, or the refusal. -/
 def renderConst : PyConst → Except RErr (Str × CTy)
   | .str s => .ok (renderStrL pyTable s, .string)
-  | .int n => .ok (renderInt n, .int)
-  | .float (.finite neg ip fp ex) _ => .ok (renderFloat neg ip fp ex, .double)
+  | .int n => .ok (signedLit (renderInt n), .int)
+  | .float (.finite neg ip fp ex) _ => .ok (signedLit (renderFloat neg ip fp ex), .double)
   | .float _ _ => .error .nonFinite
   | .bool b => .ok (if b then "true".toList else "false".toList, .bool)
   | .other t => .error (.unsupported t)
@@ -147,7 +151,7 @@ def renderConst : PyConst → Except RErr (Str × CTy)
 `visit_IfExp` declares `double if_else_resultN;` and assigns each arm to it with `set_var`, which
 writes `static_cast<double>(arm)` when the arm's recorded type is not `double`; the column that is
 filled from an expression is declared with the type recorded for the expression and assigned from
-it. A *carrier* is an expression whose value is one of its constants: a constant, or a
+it; an arm whose recorded type is `string` is refused (`Carrier.accepted`). A *carrier* is an expression whose value is one of its constants: a constant, or a
 conditional expression between two carriers (the tests do not matter here). `columnPaths` lists,
 for every constant of the carrier in source order, the C++ types it is converted to on its way
 into the column (one entry per written cast and per variable assigned). -/
@@ -178,6 +182,12 @@ def Carrier.paths : Carrier → List (PyConst × List CTy)
   | .ite a b =>
     (a.paths.map fun p => (p.1, p.2 ++ setVarSteps .double a.ty)) ++
     (b.paths.map fun p => (p.1, p.2 ++ setVarSteps .double b.ty))
+
+/-- `visit_IfExp` (since 6a224ae) refuses an arm whose recorded type is `string` (ValueError): the
+`double` result variable cannot hold it. A constant is accepted when `visit_Constant` accepts it. -/
+def Carrier.accepted : Carrier → Bool
+  | .const c => (renderConst c).toOption.isSome
+  | .ite a b => a.ty != .string && b.ty != .string && a.accepted && b.accepted
 
 /-- … and finally the column, declared with the carrier's type -/
 def Carrier.columnPaths (k : Carrier) : List (PyConst × List CTy) :=
@@ -497,6 +507,16 @@ def cppFloatL : Str → Option (Dec × CTy)
   | '-' :: r => (cppFloatLit r).map fun p => ({ p.1 with neg := true }, p.2)
   | t => cppFloatLit t
 
+/-- a parenthesised expression denotes what stands between the parentheses: one enclosing pair removed -/
+def unparen (t : Str) : Str :=
+  if t.head? = some '(' ∧ t.getLast? = some ')' then (t.drop 1).dropLast else t
+
+/-- an integer literal, `-literal`, or either of them in parentheses -/
+def cppIntE (t : Str) : Option (Int × CTy) := cppIntL (unparen t)
+
+/-- a floating literal, `-literal`, or either of them in parentheses -/
+def cppFloatE (t : Str) : Option (Dec × CTy) := cppFloatL (unparen t)
+
 /-- `true` / `false` -/
 def cppBoolL (t : Str) : Option Bool :=
   if t = "true".toList then some true else if t = "false".toList then some false else none
@@ -523,6 +543,14 @@ def numToken : Str → Str × Str
     match ppRest '-' r with
     | (a, b) => ('-' :: a, b)
   | t => ppRest ' ' t
+
+/-- the same, or `(` token `)`: (text of the primary expression, rest) -/
+def numTokenP (t : Str) : Str × Str :=
+  if t.head? = some '(' then
+    match numToken (t.drop 1) with
+    | (tok, c :: rest) => if c = ')' then ('(' :: (tok ++ [')']), rest) else ([], t)
+    | _ => ([], t)
+  else numToken t
 
 /-! ## `String` wrappers -/
 
